@@ -201,3 +201,74 @@ LEVEL_TEXT = ("Deductive: the closure of to_filterable_hook is verified as a dat
               "histories (both decorator forms); _should_skip_hook and the hook application loops have their own postconditions; z3 discharges all of it from the current source.")
 LEVEL_NOTE = "Trusted: FilterSet.match (C07), Hypothesis combinators as uninterpreted constructors, dispatcher hook validation, pyvc semantics (E9)."
 TECHNIQUE = "contract-based deductive verification: representation invariant on closure state, AST->z3 VC generation on the real functions (pyvc)"
+
+# ------------------------------------------------------------------------------------- apply_to_container: each non-skipped hook applied exactly once, in order, for all four kinds
+R.opaque_classes.update({"Hook": "spec:Hook", "Strategy": "spec:Strategy"})
+R.contract(H + "HookDispatcher.get_all_by_name", args={"self": Opq("Any"), "name": Str}, returns=Seq(Opq("Hook")), trusted=True,
+           effects={"seqs": "ghost('seqs') + [result]", "names": "ghost('names') + [name]"},
+           note="the hooks registered under a name on this dispatcher, in registration order (register_hook_with_name appends)")
+callsite = R.contracts[H + "_should_skip_hook"]
+callsite.pure = True
+callsite.returns = Bool
+callsite.call_ensures = {}
+R.alias("skip", H + "_should_skip_hook")
+R.uf("hook_call", ["Hook", "ObjRef", "Strategy"], "Strategy")    # before_generate: strategy' = hook(context, strategy)
+R.uf("st_filter", ["Strategy", "Hook", "ObjRef"], "Strategy")    # strategy.filter(partial(hook, context))
+R.uf("st_map", ["Strategy", "Hook", "ObjRef"], "Strategy")
+R.uf("st_flatmap", ["Strategy", "Hook", "ObjRef"], "Strategy")
+R.contract("spec:Hook.__call__", args={"self": Opq("Hook"), "context": Opq("Any"), "strategy": Opq("Strategy")}, returns=Opq("Strategy"), trusted=True,
+           call_ensures={"def": "result == hook_call(self, context, strategy)"}, note="user hook before_generate_*: returns a strategy")
+
+
+def _partial(it, args, kw):
+    from pyvc.values import VObj
+
+    return VObj(it.resolve_class("spec:BoundHook"), {"hook": args[0], "context": args[1]})
+
+
+R.extern["functools.partial"] = _partial
+for k in ("filter", "map", "flatmap"):
+    R.contract(f"spec:Strategy.{k}", args={"self": Opq("Strategy"), "f": Opq("Any")}, returns=Opq("Strategy"), trusted=True,
+               call_ensures={"def": f"result == st_{k}(self, f.hook, f.context)"}, note=f"E2: strategy.{k}(f) is the strategy built from (strategy, f)")
+
+# definitional axioms of the four folds (a fresh function defined by recursion over the hook list is conservative): F_k(0) = input, F_k(j+1) = F_k(j) if the hook is skipped else APPLY
+R.uf("f0", ["int"], "Strategy")
+R.uf("f1", ["int"], "Strategy")
+R.uf("f2", ["int"], "Strategy")
+R.uf("f3", ["int"], "Strategy")
+
+
+def _fold_inv(k, prev):
+    return {"index": "i", "modifies": {"strategy": Opq("Strategy"), "hook": Opq("Hook")},
+            "clauses": [f"strategy == f{k}(i)"],
+            "assume_defs": True}
+
+
+R.contract(
+    H + "HookDispatcher.apply_to_container",
+    prop="C19",
+    args={"self": Opq("Dispatcher"), "strategy": Opq("Strategy"), "container": Str, "context": Obj(H + "HookContext", operation=OneOf(NoneT, Opq("Op")))},
+    ghost={"seqs": [], "names": []},
+    invariants={
+        0: {"index": "i", "modifies": {"strategy": Opq("Strategy"), "hook": Opq("Any")},
+            "assume": ["f0(0) == old_strategy()", "forall(0, length(ghost('seqs')[0]), lambda j: f0(j + 1) == ite(skip(elem(ghost('seqs')[0], j), context), f0(j), hook_call(elem(ghost('seqs')[0], j), context, f0(j))))"],
+            "clauses": ["strategy == f0(i)"]},
+        1: {"index": "i", "modifies": {"strategy": Opq("Strategy"), "hook": Opq("Any")},
+            "assume": ["f1(0) == f0(length(ghost('seqs')[0]))", "forall(0, length(ghost('seqs')[1]), lambda j: f1(j + 1) == ite(skip(elem(ghost('seqs')[1], j), context), f1(j), st_filter(f1(j), elem(ghost('seqs')[1], j), context)))"],
+            "clauses": ["strategy == f1(i)"]},
+        2: {"index": "i", "modifies": {"strategy": Opq("Strategy"), "hook": Opq("Any")},
+            "assume": ["f2(0) == f1(length(ghost('seqs')[1]))", "forall(0, length(ghost('seqs')[2]), lambda j: f2(j + 1) == ite(skip(elem(ghost('seqs')[2], j), context), f2(j), st_map(f2(j), elem(ghost('seqs')[2], j), context)))"],
+            "clauses": ["strategy == f2(i)"]},
+        3: {"index": "i", "modifies": {"strategy": Opq("Strategy"), "hook": Opq("Any")},
+            "assume": ["f3(0) == f2(length(ghost('seqs')[2]))", "forall(0, length(ghost('seqs')[3]), lambda j: f3(j + 1) == ite(skip(elem(ghost('seqs')[3], j), context), f3(j), st_flatmap(f3(j), elem(ghost('seqs')[3], j), context)))"],
+            "clauses": ["strategy == f3(i)"]},
+    },
+    ensures={
+        # the result is the left fold of ALL registered hooks of all four kinds, each non-skipped hook applied exactly once, in registration order
+        "all_applicable_hooks_applied_once_in_order": "result == f3(length(ghost('seqs')[3]))",
+        "hook_names": "ghost('names') == ['before_generate_' + container, 'filter_' + container, 'map_' + container, 'flatmap_' + container]",
+    },
+    replayable=False,
+)
+R.spec_funcs["old_strategy"] = lambda it: it.ghost["strategy0"]
+R.contracts[H + "HookDispatcher.apply_to_container"].ghost_init = {"strategy0": "strategy"}
